@@ -111,7 +111,16 @@ def run_history(ops: List[List[Any]], via_queue: bool, duplex: bool) -> Tuple[Li
     def process() -> None:
         try:
             if via_queue:
-                disp.run_once()
+                # the multiprocessing queue hands a put to its feeder thread: on a loaded machine the event may surface later
+                # than run_once()'s own one-second wait; only an event that stays absent for WAIT_S is "not in the queue"
+                end = time.time() + WAIT_S
+                while True:
+                    try:
+                        disp.run_once()
+                        break
+                    except queue.Empty:
+                        if time.time() >= end:
+                            raise
             else:
                 disp.handle_event(eq.queue.get_nowait())
         except queue.Empty:
